@@ -83,14 +83,16 @@ def save(mesh : Mesh, filename: str, ignore_elements:set = None) -> None:
         mesh.connectivity._compute_adjacent_cell()
     raw_mesh = RawMeshData(mesh) # get rid of connectivity and additional attributes depending on dimension
     if ignore_elements is not None:
-        if "edges" in ignore_elements: raw_mesh.edges.clear()
+        # raw_mesh shares its containers with mesh : replace them by empty ones instead of clearing them
+        empty = RawMeshData()
+        if "edges" in ignore_elements: raw_mesh.edges = empty.edges
         if "faces" in ignore_elements:
-            raw_mesh.faces.clear()
-            raw_mesh.face_corners.clear()
+            raw_mesh.faces = empty.faces
+            raw_mesh.face_corners = empty.face_corners
         if "cells" in ignore_elements: 
-            raw_mesh.cells.clear()
-            raw_mesh.cell_corners.clear()
-            raw_mesh.cell_faces.clear()
+            raw_mesh.cells = empty.cells
+            raw_mesh.cell_corners = empty.cell_corners
+            raw_mesh.cell_faces = empty.cell_faces
     write_by_extension(raw_mesh, filename)
 
 def from_arrays(
